@@ -47,13 +47,15 @@ fn check_asm(prog: &[MStmt], layout: &[StmtLayout], text: &str, st: &mut Stats) 
         ErrClass::OverlappingLabels | ErrClass::UndetAddrLabel | ErrClass::CouldNotFindLabel | ErrClass::OffsetExternal | ErrClass::OffsetNewErr
     );
     if label_err {
-        let covers = spans.iter().any(|s| model.offending_labels.contains(&text[s.clone()].to_uppercase()));
-        if !covers {
+        // every span of a label error is an occurrence of an offending label
+        let bad: Vec<_> = spans.iter().filter(|s| !model.offending_labels.contains(&text[(*s).clone()].to_uppercase())).collect();
+        if !bad.is_empty() || spans.is_empty() {
             return Err(format!(
-                "assemble: label error {:?} has spans {:?} (texts {:?}), none of which is a spelling of an offending label {:?}",
+                "assemble: label error {:?} has spans {:?} (texts {:?}); {:?} do not cover a spelling of an offending label {:?}",
                 e.kind,
                 spans,
                 spans.iter().map(|s| &text[s.clone()]).collect::<Vec<_>>(),
+                bad,
                 model.offending_labels
             ));
         }
@@ -65,7 +67,7 @@ fn check_asm(prog: &[MStmt], layout: &[StmtLayout], text: &str, st: &mut Stats) 
 /// Builds pairs of object files whose link must fail, and queries the error's spans.
 fn check_link(t: &mut Tape, st: &mut Stats) -> Result<(), String> {
     use crate::gen::prog::{gen_wellformed, ProgCfg};
-    let (prog, _) = gen_wellformed(t, &ProgCfg { max_blocks: 2, max_stmts: 8, externals: false, big: false, external_inside: false, wild_strings: false });
+    let (prog, _) = gen_wellformed(t, &ProgCfg { max_blocks: 2, max_stmts: 8, externals: false, big: false, external_inside: false, wild_strings: false, huge: false });
     let r = render(&prog, t, RenderOpts { plain: true, wild_comments: false });
     let Some(real) = to_real_all(&prog, &r.layout) else { return Ok(()) };
     let Ok(a) = assemble_debug(real, &r.text) else { return Ok(()) };
